@@ -288,7 +288,7 @@ impl Ctx {
 			.find(|k| k.property == self.id && k.status == "open" && k.signature == signature)
 		{
 			let mut p = self.known_printed.lock().unwrap();
-			if p.insert(signature.to_string()) {
+			if p.insert(k.what.clone()) {
 				println!("KNOWN-FINDING: property={} {} [{}]", self.id, k.what, k.signature);
 			}
 			self.ev.0.lock().unwrap().excluded_known += 1;
@@ -336,7 +336,7 @@ impl Ctx {
 			let sig = &k["known_finding_hits:".len()..];
 			if let Some(kn) = self.known.iter().find(|x| x.property == self.id && x.status == "open" && x.signature == sig) {
 				let mut p = self.known_printed.lock().unwrap();
-				if p.insert(sig.to_string()) {
+				if p.insert(kn.what.clone()) {
 					println!("KNOWN-FINDING: property={} {} [{}]", self.id, kn.what, kn.signature);
 				}
 			}
@@ -403,12 +403,20 @@ fn load_known(root: &Path) -> Vec<Known> {
 	let mut out = vec![];
 	if let Some(a) = v.get("findings").and_then(|a| a.as_array()) {
 		for e in a {
-			out.push(Known {
-				property: e["property"].as_str().unwrap_or("").to_string(),
-				signature: e["signature"].as_str().unwrap_or("").to_string(),
-				what: e["what"].as_str().unwrap_or("").to_string(),
-				status: e["status"].as_str().unwrap_or("open").to_string(),
-			});
+			// one entry = one finding (one root cause); it lists the exact failing signature, or, where
+			// the same root cause shows at several call sites / crash points, each of them ("signatures")
+			let mut sigs: Vec<String> = e["signatures"].as_array().map(|a| a.iter().filter_map(|x| x.as_str().map(|s| s.to_string())).collect()).unwrap_or_default();
+			if let Some(s) = e["signature"].as_str() {
+				sigs.push(s.to_string());
+			}
+			for signature in sigs {
+				out.push(Known {
+					property: e["property"].as_str().unwrap_or("").to_string(),
+					signature,
+					what: e["what"].as_str().unwrap_or("").to_string(),
+					status: e["status"].as_str().unwrap_or("open").to_string(),
+				});
+			}
 		}
 	}
 	out
